@@ -9,6 +9,7 @@ from coqrun import ni
 from gen import pyref, txgen
 from gen.util import SECP_N, short
 
+DRIVERS = ['C06']
 NEEDS = dict(cli=True, harness=True, shim=False, release=True)
 RULE = ("CLI `sign transaction` on legacy / EIP-2930 / EIP-1559 documents x chain ids {absent, null, 0, 1, 137, 2^32, 2^64-1, 2^64, "
         "(2^256-37)/2, that+1, 2^255, 2^256-1} x --allow-missing-relay-protection x --signature-only x account indices (both "
